@@ -116,7 +116,7 @@ Definition check (c : case) : N :=
                   | Some st => sf_monotone_cell (t_drs t) st dr s
                   | None => false
                   end
-               && (if c_rep cfg && version_query_sane ver then
+               && (if c_rep cfg then
                      match non_repeater_partner cfg with
                      | Some p => match get_max_payload (c_tab p) ver rev dr with
                                  | Ok s' => size_le s s'
@@ -127,6 +127,12 @@ Definition check (c : case) : N :=
                    else true)
              | _ => true
              end
+          (* a version string that is no protocol version / a revision string that is no revision (as
+             the SPECIFICATION knows them - whatever the table is keyed by) resolves to the latest table *)
+          && (if negb (str_mem ver (latest :: protocol_versions))
+              then outcome_eqb pair_eqb o (get_max_payload t latest rev dr) else true)
+          && (if negb (str_mem rev (latest :: reg_param_revisions))
+              then outcome_eqb pair_eqb o (get_max_payload t ver latest dr) else true)
           (* unknown version / revision strings resolve to the latest table *)
           && (if unknown_ver then outcome_eqb pair_eqb o (get_max_payload t latest rev dr) else true)
           && (if unknown_rev then outcome_eqb pair_eqb o (get_max_payload t ver latest dr) else true)
